@@ -1391,3 +1391,100 @@ theorem invB_sound {dest : Path} {fs : FS} (h : invB dest fs = true) : Inv dest 
     simpa using this
 
 end MM.C27
+
+namespace MM.C27
+
+/-! ### MkdirAll changes the filesystem only at prefixes of its argument -/
+
+theorem mkdir_frame {fs : FS} {fu : Nat} {P : Path} (hdd : NoDD P) (hc : Clear fs P (P.length - 1)) :
+    ∀ q, q ≠ P → (mkdir fs fu P).1.lookup q = fs.lookup q := by
+  intro q hq
+  unfold mkdir
+  cases hl : lstat fs fu P with
+  | missing par n =>
+    have ⟨h1, _, _⟩ := lstat_missing hdd hc hl
+    simp only
+    have hne : par ++ [n] ≠ [] := by simp
+    rw [lookup_set fs _ q hne, h1, if_neg hq]
+  | found _ _ => rfl
+  | err => rfl
+
+theorem mkdirAllR_frame {dest : Path} {fu : Nat} : ∀ (rp : List Name) (fs : FS),
+    Inv dest fs → NoDD rp.reverse → Clear fs rp.reverse rp.reverse.length →
+    (rp.reverse <+: dest ∨ Under dest rp.reverse) →
+    ∀ q, ¬ q <+: rp.reverse → (mkdirAllR fs fu rp).1.lookup q = fs.lookup q := by
+  intro rp
+  induction rp with
+  | nil => intro fs _ _ _ _ q _; rfl
+  | cons n rparent ih =>
+    intro fs hI hdd hc hrel q hq
+    have hP : (n :: rparent).reverse = rparent.reverse ++ [n] := by simp
+    have hdd' : NoDD rparent.reverse := by
+      intro x hx; apply hdd x; rw [hP]; exact List.mem_append_left _ hx
+    have hc' : Clear fs rparent.reverse rparent.reverse.length := by
+      have := clear_dropLast hc
+      rw [hP] at this
+      simpa using this
+    have hrel' : rparent.reverse <+: dest ∨ Under dest rparent.reverse := by
+      rcases hrel with h | h
+      · left; rw [hP] at h; exact (List.prefix_append _ _).trans h
+      · rw [hP] at h
+        rcases prefix_concat_cases h.1 with he | hp
+        · exact absurd he.symm h.2
+        · by_cases heq : rparent.reverse = dest
+          · left; rw [heq]; exact List.prefix_refl _
+          · right; exact ⟨hp, heq⟩
+    have hq' : ¬ q <+: rparent.reverse := fun h => hq (by rw [hP]; exact h.trans (List.prefix_append _ _))
+    have hqP : q ≠ (n :: rparent).reverse := fun h => hq (h ▸ List.prefix_refl _)
+    have hrec := ih fs hI hdd' hc' hrel' q hq'
+    have ⟨_, hN1⟩ := safe_mkdirAllR (dest := dest) (fu := fu) rparent fs hI hdd' hc' hrel'
+    unfold mkdirAllR
+    dsimp only
+    cases hs : stat fs fu (n :: rparent).reverse with
+    | found p k => cases k <;> rfl
+    | missing par m =>
+      simp only
+      cases hr : mkdirAllR fs fu rparent with
+      | mk fs1 ok1 =>
+        rw [hr] at hrec hN1
+        cases ok1 with
+        | false => exact hrec
+        | true =>
+          simp only
+          have hc1 : Clear fs1 (n :: rparent).reverse ((n :: rparent).reverse.length - 1) :=
+            (hc.mono hN1).le (by omega)
+          have hm := mkdir_frame (fu := fu) hdd hc1 q hqP
+          cases hmk : mkdir fs1 fu (n :: rparent).reverse with
+          | mk fs2 ok2 =>
+            rw [hmk] at hm
+            cases ok2 with
+            | true => exact hm.trans hrec
+            | false => exact hrec
+    | err =>
+      simp only
+      cases hr : mkdirAllR fs fu rparent with
+      | mk fs1 ok1 =>
+        rw [hr] at hrec hN1
+        cases ok1 with
+        | false => exact hrec
+        | true =>
+          simp only
+          have hc1 : Clear fs1 (n :: rparent).reverse ((n :: rparent).reverse.length - 1) :=
+            (hc.mono hN1).le (by omega)
+          have hm := mkdir_frame (fu := fu) hdd hc1 q hqP
+          cases hmk : mkdir fs1 fu (n :: rparent).reverse with
+          | mk fs2 ok2 =>
+            rw [hmk] at hm
+            cases ok2 with
+            | true => exact hm.trans hrec
+            | false => exact hrec
+
+theorem mkdirAll_frame {dest : Path} {fu : Nat} {fs : FS} {P : Path} (hI : Inv dest fs) (hdd : NoDD P)
+    (hc : Clear fs P P.length) (hrel : P <+: dest ∨ Under dest P) :
+    ∀ q, ¬ q <+: P → (mkdirAll fs fu P).1.lookup q = fs.lookup q := by
+  unfold mkdirAll
+  have := mkdirAllR_frame (dest := dest) (fu := fu) P.reverse fs hI (by simpa using hdd) (by simpa using hc)
+    (by simpa using hrel)
+  simpa using this
+
+end MM.C27
